@@ -3,6 +3,7 @@ from __future__ import annotations
 
 
 ATOMS = {}  # letter -> real alphabet item (set by a check that wants non-trivial items, e.g. words or tuples)
+SEQ = {}  # letter -> item of the INPUT sequence when it differs from the pattern's atom (atoms that are predicate objects)
 
 
 def to_expr(t, memo=None):
@@ -43,7 +44,7 @@ def _to_expr(t, memo):
 
 
 def real_seq(seq):
-    return [ATOMS.get(ch, ch) for ch in seq]
+    return [SEQ.get(ch, ATOMS.get(ch, ch)) for ch in seq]
 
 
 def top_expr(t, shared=False):
